@@ -329,6 +329,23 @@ def one_run(run, ct, net, mode, sets, failing, post, objective, seed, M, real_po
             if (f_, w_, s_) != (ref["flops"], ref["write"], ref["size"]):
                 problems.append(f"trial {i}: recorded costs {(f_, w_, s_)} differ from the costs of the tree that trial built "
                                 f"{(ref['flops'], ref['write'], ref['size'])} (another trial's result?)")
+    # the path the optimizer hands out is the path of its best tree - also when the same object searches on (resume)
+    try:
+        if "tree" in b and tuple(map(tuple, opt.path)) != tuple(map(tuple, b["tree"].get_path())):
+            problems.append("opt.path is not the path of the best tree")
+        if mode == "serial" and "verif" in methods and not stop and "tree" in b and post == "none":
+            p_again = opt(net.c_inputs(), net.c_output(), net.c_sizes())          # M more trials on the same object
+            b2 = opt.best
+            want = tuple(map(tuple, b2["tree"].get_path()))
+            if tuple(map(tuple, p_again)) != want or tuple(map(tuple, opt.path)) != want:
+                problems.append("after searching on with the same object, the path handed out is not the path of the best tree")
+            fin2 = [x for x in opt.scores if x != float("inf")]
+            if fin2 and b2["score"] != min(fin2):
+                problems.append("after searching on with the same object, best score is not the minimum over all its trials")
+            if len(opt.scores) != 2 * M:
+                problems.append(f"after searching on: {len(opt.scores)} trials recorded for 2 x max_repeats={M}")
+    except Exception as e:
+        problems.append(f"opt.path / resumed search raised {core.exc_text(e)}")
     # the table of trials the optimizer reports (get_trials): one row per recorded trial, the winner among them
     try:
         finite_rows = None
